@@ -213,6 +213,8 @@ class Link:
         self.method = None              # scrapli transport method currently executing (set by the harness)
         self.killed = False
         self.closed = False
+        self.byte_fault = None          # (n, outcome): the session is lost after n bytes of device output (chunks are cut there)
+        self.nbytes = 0
         self.fault_pre_done = False
         self.pend = 0                   # Telnet control bytes delivered so far that do not form a complete command yet (0, 1, 2)
         self.pre_iac = b""              # bytes to deliver alone right before the faulted read's outcome
@@ -230,6 +232,8 @@ class Link:
                 self.fault_pre_done = True
                 self.pend = self.fault[3]
                 raise _PreIac(IAC if self.fault[3] == 1 else IAC + DO_)
+        elif self.byte_fault is not None and kind == "read" and self.lost is None and self.nbytes >= self.byte_fault[0]:
+            o = self.byte_fault[1]              # every byte up to the drop offset was delivered: now the loss
         elif self.lost is not None:
             o = self._postloss(kind)
         else:
@@ -310,8 +314,10 @@ class Link:
                 return head + (b"x>" if o.startswith("data") else b"x") + tail
             if not self.buf:
                 raise WouldBlock()
-            chunk = bytes(self.buf)
-            self.buf.clear()
+            take = len(self.buf) if self.byte_fault is None else min(len(self.buf), self.byte_fault[0] - self.nbytes)
+            chunk = bytes(self.buf[:take])
+            del self.buf[:take]
+            self.nbytes += take
             return head + chunk + tail
         if o == "empty":
             return b""
@@ -926,15 +932,17 @@ def observe_ctrl():
 PROMPT_PATTERN = r"^[a-z0-9.\-@()/:]{1,48}[#>$]\s*$"
 
 
-def make_real_conn(t, link, timeout_ops=0.3, platform=None, **kw):
-    """a real (Async)GenericDriver whose REAL transport `t` sits on the fakes driven by `link`, already 'opened'"""
+def make_real_conn(t, link, timeout_ops=0.3, platform=None, wire=True, **kw):
+    """a real (Async)GenericDriver whose REAL transport `t` sits on the fakes driven by `link`, already 'opened'
+    (wire=False: not opened — conn.open() then runs the real open() over the patched library entry points)"""
     from scrapli.driver import AsyncGenericDriver, GenericDriver
     cls = AsyncGenericDriver if t in ASYNC else GenericDriver
     args = dict(host="192.0.2.1", transport=t, auth_bypass=True, auth_username="u", auth_password="p", auth_strict_key=False,
                 timeout_ops=timeout_ops, timeout_transport=0, timeout_socket=1, comms_prompt_pattern=PROMPT_PATTERN)
     args.update(kw)
     conn = cls(**args)
-    wire_open(t, conn.transport, link)
+    if wire:
+        wire_open(t, conn.transport, link)
     return conn
 
 
